@@ -129,6 +129,7 @@ def _short(x):
 def run_shard(shard, acc, forced_trace=None):
     monitors.install()
     hist.KCACHE.install()
+    hist.install_class_state_probe()
     rnd = random.Random(shard["seed"] ^ 11)
     scratch = tempfile.mkdtemp(prefix="verif_c11_")
     try:
